@@ -169,13 +169,13 @@ func runRace(w *world, in raceIn) (out raceOut) {
 		must(err)
 		return m
 	}
-	keys := map[string]string{"m1": fmt.Sprintf("rk%d-one", base), "m2": fmt.Sprintf("rk%d-two", base)}
-	maps := map[string]*models.PortMapping{"m1": mk(w.L.id, w.T.id, keys["m1"]), "m2": mk(w.S.id, w.X.id, keys["m2"])}
-	idOf := map[string]int{maps["m1"].ID: 1, maps["m2"].ID: 2}
-	nameOf := map[int]string{0: "", 1: "m1", 2: "m2"}
+	keys := map[string]string{"m1": fmt.Sprintf("rk%d-one", base), "m2": fmt.Sprintf("rk%d-two", base), "m3": fmt.Sprintf("rk%d-srv", base)}
+	maps := map[string]*models.PortMapping{"m1": mk(w.L.id, w.T.id, keys["m1"]), "m2": mk(w.S.id, w.X.id, keys["m2"]), "m3": mk(0, w.T.id, keys["m3"])}
+	idOf := map[string]int{maps["m1"].ID: 1, maps["m2"].ID: 2, maps["m3"].ID: 3}
+	nameOf := map[int]string{0: "", 1: "m1", 2: "m2", 3: "m3"}
 	clients := map[string]client{"L": w.L, "T": w.T, "S": w.S, "X": w.X}
-	listenOf := map[string]string{"m1": "L", "m2": "S"}
-	targetOf := map[string]string{"m1": "T", "m2": "X"}
+	listenOf := map[string]string{"m1": "L", "m2": "S", "m3": "-"}
+	targetOf := map[string]string{"m1": "T", "m2": "X", "m3": "T"}
 
 	type side struct {
 		fc   *fakeConn
@@ -192,13 +192,17 @@ func runRace(w *world, in raceIn) (out raceOut) {
 		fakes, conns = append(fakes, fc), append(conns, c)
 		if cl, ok := clients[rr.Who]; ok {
 			w.authTunnelConn(fc, c, cl, 2)
+		} else if rr.Who == "half" {
+			w.authTunnelConn(fc, c, w.S, 1) // only the first handshake message: a record with client id 0
 		}
 		req := &packet.TunnelOpenRequest{TunnelID: tunnelID}
 		right, other := keys["m1"], keys["m2"]
-		if rr.Mid == "m1" || rr.Mid == "m2" {
+		if rr.Mid == "m1" || rr.Mid == "m2" || rr.Mid == "m3" {
 			req.MappingID = maps[rr.Mid].ID
 			if rr.Mid == "m2" {
 				right, other = keys["m2"], keys["m1"]
+			} else if rr.Mid == "m3" {
+				right = keys["m3"]
 			}
 		}
 		req.SecretKey = secretFor(rr.Secret, right, other)
